@@ -330,8 +330,10 @@ class IndentationRater(IndentationFeatures):
             if not self._pre_rate(bsamp):
                 # certainly a bad curve
                 gd = 0
-            elif np.isnan(np.sum(fsamp)):
-                # ignore nan-valued samples
+            elif not np.all(np.isfinite(fsamp)):
+                # ignore nan-valued and infinite samples (a feature may
+                # become infinite, e.g. a ratio with a vanishing
+                # denominator; the regressors cannot handle that)
                 gd = -1
             else:
                 gd = self._rate(fsamp)
